@@ -32,7 +32,20 @@ def bit_value(rng, bits):
         return 0
     m = 1 << bits
     n = nlimbs(bits)
-    c = rng.randrange(16)
+    c = rng.randrange(18)
+    if c >= 16:
+        # sparse multi-limb values: a few set bits spread over several limbs, in particular the SAME bit position
+        # (or the same word) in two or more limbs — what a limb-folding predicate (is_power_of_two, count, scans) confuses
+        w = (1 << rng.randrange(64)) if c == 16 else rng.choice([1 << rng.randrange(64), 3, 2**64 - 1, rng.getrandbits(64) | 1])
+        v = 0
+        for i in range(n):
+            if rng.random() < 0.55:
+                v |= w << (64 * i)
+        if v == 0:
+            v = w | (w << (64 * (n - 1)))
+        if rng.random() < 0.3:
+            v ^= 1 << rng.randrange(bits)
+        return v % m
     if c == 0:
         return m - 1
     if c == 1:
